@@ -863,6 +863,44 @@ pub fn gen_burst(r: &mut Rng, n: usize) -> String {
     })
 }
 
+/// C01 with many outstanding requests: `n` callers issue their request before the server answers
+/// anything (the first `noidle` is still unanswered), then everything is delivered. Every caller must
+/// get the reply to its own request, in order. An ordinary `loop` op: the model has an unbounded queue
+/// like the code.
+pub fn gen_request_burst(r: &mut Rng, n: usize) -> String {
+    let sel_seed = r.next() % 1_000_000;
+    let rt = runtime(sel_seed);
+    rt.block_on(async {
+        let mut w = World::new(None, sel_seed);
+        let mut sv = SimServer::default();
+        let mut actions: Vec<String> = Vec::new();
+        async fn act(w: &mut World, sv: &mut SimServer, actions: &mut Vec<String>, a: String) {
+            let seg = w.act(&a).await;
+            actions.push(a);
+            for p in seg.split('&') {
+                if let Some(h) = p.strip_prefix("w=") {
+                    sv.feed(&unhex(h));
+                }
+            }
+        }
+        act(&mut w, &mut sv, &mut actions, format!("d{}", hex(b"OK MPD 0.23.5\n"))).await;
+        for rid in 1..=n {
+            act(&mut w, &mut sv, &mut actions, format!("q{}:{}", rid, cmd_spec("x", &[format!("burst{rid}")]))).await;
+        }
+        for _ in 0..(2 * n + 10) {
+            if sv.out.is_empty() {
+                act(&mut w, &mut sv, &mut actions, "t100".to_string()).await;
+                if sv.out.is_empty() {
+                    break;
+                }
+            }
+            let v: Vec<u8> = sv.out.drain(..).collect();
+            act(&mut w, &mut sv, &mut actions, format!("d{}", hex(&v))).await;
+        }
+        format!("loop.C01.{} ~ {}", sel_seed, actions.join(","))
+    })
+}
+
 /// one schedule, generated online; returns the op line
 pub fn gen_schedule(r: &mut Rng, g: &GenCfg, steps: usize, prop: &str, backpressure: bool) -> String {
     let sel_seed = r.next() % 1_000_000;
@@ -1014,7 +1052,10 @@ pub fn gen_schedule(r: &mut Rng, g: &GenCfg, steps: usize, prop: &str, backpress
                         let limit = if size / limit > 60 { size / 40 + 1 } else { limit };
                         let emb = *r.pick(&["y", "y", "n", "5", "50", "2"]);
                         let file = *r.pick(&["y", "y", "n", "50", "5", "2"]);
-                        let uri = format!("art_{}_{}_{}_{}_{}", size, limit, emb, file, r.below(2));
+                        // sometimes with a free-form tail that needs quoting AND contains non-ASCII text
+                        // (the URI must reach the server byte for byte in every chunk request)
+                        let tail = *r.pick(&["", "", "", "_Motörhead live", "_東京 事変", "_it's é\\x", "_ü"]);
+                        let uri = format!("art_{}_{}_{}_{}_{}{}", size, limit, emb, file, r.below(2), tail);
                         do_act(&mut w, &mut sv, &mut actions, format!("a{}:{}", rid, hex(uri.as_bytes()))).await;
                     } else if g.typed && pick < 8 {
                         let is_vec = r.chance(1, 2);
@@ -1098,7 +1139,12 @@ pub fn gen_schedule(r: &mut Rng, g: &GenCfg, steps: usize, prop: &str, backpress
                         3 => {
                             // cut: deliver part of what is pending, then EOF
                             if !sv.out.is_empty() {
-                                let k = r.range(1, sv.out.len());
+                                // half of the time exactly on a line boundary inside the pending output
+                                // (after a field line, after a `list_OK`, after a binary chunk): there
+                                // nothing is left in the buffer and only the builder knows that a
+                                // response is unfinished
+                                let lfs: Vec<usize> = sv.out.iter().enumerate().filter(|(_, b)| **b == b'\n').map(|(i, _)| i + 1).filter(|p| *p < sv.out.len()).collect();
+                                let k = if !lfs.is_empty() && r.chance(1, 2) { *r.pick(&lfs) } else { r.range(1, sv.out.len()) };
                                 let v: Vec<u8> = sv.out.drain(..k).collect();
                                 do_act(&mut w, &mut sv, &mut actions, format!("d{}", hex(&v))).await;
                             }
@@ -1179,6 +1225,9 @@ pub fn gen(cfg: &Cfg) -> Vec<String> {
         ops.push(gen_schedule(&mut r, &g, steps, &cfg.prop, false));
         if cfg.prop == "C04" && i < 2 {
             ops.push(gen_burst(&mut r, 70 + 25 * i));
+        }
+        if cfg.prop == "C01" && i == 0 {
+            ops.push(gen_request_burst(&mut r, 140));
         }
         // the same kind of schedule over a transport with write back-pressure (C01, C05, C13: the
         // properties about what is written and who is answered); oracle-only, see Driver/Loop.lean
